@@ -91,30 +91,30 @@ Definition set_size (p : params) (size : N) : res param_err params :=
 
 (* ---- addresses, ReceivedInfo::new ------------------------------------------------ *)
 
-(* An address is the integer u32::from(Ipv4Addr) / u128::from(Ipv6Addr) (big-endian octets). *)
-Inductive ipaddr := V4 (a : N) | V6 (a : N).
+(* An address is its octets() in network order: 4 for IPv4, 16 for IPv6. *)
+Inductive ipaddr := V4 (o : bytes) | V6 (o : bytes).
 Definition is_ipv6 (ip : ipaddr) : bool := match ip with V4 _ => false | V6 _ => true end.
 
-(* ipv6.octets()[i] *)
-Definition v6_octet (a : N) (i : nat) : N := (a / 2 ^ (8 * N.of_nat (15 - i))) mod 256.
-(* u32::from(Ipv4Addr::new(o0, o1, o2, o3)) *)
-Definition ipv4_of_octets (o0 o1 o2 o3 : N) : N := ((o0 * 256 + o1) * 256 + o2) * 256 + o3.
+(* u32::from(Ipv4Addr) / u128::from(Ipv6Addr): the octets read as a big-endian integer *)
+Definition be_value (o : bytes) : N := fold_left (fun acc x => acc * 256 + x) o 0.
 
-(* the `source` computed by ReceivedInfo::new *)
+(* the `source` computed by ReceivedInfo::new:
+   octets[0..10].iter().all(|o| *o == 0) && octets[10] == 0xff && octets[11] == 0xff
+   => IpAddr::V4(Ipv4Addr::new(octets[12], octets[13], octets[14], octets[15])) *)
 Definition received_info_source (src : ipaddr) : ipaddr :=
   match src with
-  | V4 a => V4 a
-  | V6 a =>
-    if forallb (fun i => v6_octet a i =? 0) (seq 0 10) && (v6_octet a 10 =? 255) && (v6_octet a 11 =? 255)
-    then V4 (ipv4_of_octets (v6_octet a 12) (v6_octet a 13) (v6_octet a 14) (v6_octet a 15))
-    else V6 a
+  | V4 o => V4 o
+  | V6 o =>
+    if forallb (fun x => x =? 0) (firstn 10 o) && (nth 10 o 0 =? 255) && (nth 11 o 0 =? 255)
+    then V4 [nth 12 o 0; nth 13 o 0; nth 14 o 0; nth 15 o 0]
+    else V6 o
   end.
 
 (* Rrl::ip_to_dest_u64 *)
 Definition ip_to_dest (p : params) (ip : ipaddr) : N :=
   match ip with
-  | V4 a => N.land a (p_ipv4_netmask p)                       (* (u32 & mask) as u64 *)
-  | V6 a => N.land ((a / two64) mod two64) (p_ipv6_netmask p)  (* ((u128 >> 64) as u64) & mask *)
+  | V4 o => N.land (be_value o) (p_ipv4_netmask p)                       (* (u32 & mask) as u64 *)
+  | V6 o => N.land ((be_value o / two64) mod two64) (p_ipv6_netmask p)   (* ((u128 >> 64) as u64) & mask *)
   end.
 
 (* ---- names as Name::hash sees them ------------------------------------------------ *)
